@@ -56,8 +56,14 @@ def custom_proof(tier):
     from pyvc import statecheck, frontend
     fe = frontend.Frontend(os.environ.get('HEPH_REPO', '/repo'))
     q = 'src.ir.type_utils.find_irrelevant_type'
-    return (statecheck.bound_once_to_call(fe, q, 'supertypes', 'find_supertypes')
-            + statecheck.bound_once_to_call(fe, q, 'subtypes', 'find_subtypes'))
+    out = (statecheck.bound_once_to_call(fe, q, 'supertypes', 'find_supertypes')
+           + statecheck.bound_once_to_call(fe, q, 'subtypes', 'find_subtypes'))
+    # the one element of a search result that is outside the proof comes from _construct_related_types: at least every return
+    # statement of that function hands out the query itself or an instantiation made by the query's own generic class, and its
+    # random draw never sees an empty candidate list (contracts/ranges.py, verified as a second group)
+    from pyvc import driver
+    out += driver.verify_group(['src.ir.type_utils._construct_related_types'], ['ranges'])
+    return out
 
 
 from props import C09_bounded as _b   # noqa: E402
